@@ -166,7 +166,7 @@ class Router(frappy.protocol.dispatcher.Dispatcher):
                 else:
                     datatype = node.modules[module]['parameters'][parameter]['datatype']
                     reply = EVENTREPLY, spec, [datatype.export_value(value), {'t': t}]
-                self.broadcast_event(reply)
+                conn.send_reply(reply)
         return ENABLEEVENTSREPLY, None, None
 
     def handle_deactivate(self, conn, specifier, data):
